@@ -256,6 +256,8 @@ class Program:
         if self.normalize:
             from .normalize import inline_new_helpers, desugar_match, propagate_new_constants, restore_parameter_names
             self.renamed_parameters = restore_parameter_names({m.name: m.tree for m in self.modules.values()})
+            from .normalize import restore_local_names
+            self.renamed_locals = restore_local_names({m.name: m.tree for m in self.modules.values()})
             from .normalize import expand_table_spreads
             expand_table_spreads({m.name: m.tree for m in self.modules.values()})
             self.new_constants = propagate_new_constants({m.name: m.tree for m in self.modules.values()})
